@@ -39,7 +39,9 @@ def check_cache(
     # different output names) never serve each other's entries.
     # A gate's cached decision names one of ITS targets, so the (ordered) target list
     # is part of its identity as well.
-    identity = f"{node.definition_hash}:{node.outputs!r}"
+    # The node kind is part of the identity too: the same function means something else
+    # behind a FunctionNode (None is a result) and behind an InterruptNode (None asks).
+    identity = f"{type(node).__name__}:{node.definition_hash}:{node.outputs!r}"
     targets = getattr(node, "targets", None)
     if targets is not None:
         identity += f":{[str(t) for t in targets]!r}:{getattr(node, 'fallback', None)!s}"
